@@ -161,7 +161,6 @@ Definition pairs_eqb (a b : list (text * option text)) : bool :=
 Definition texts_eqb (a b : list text) : bool := list_eqb text_eqb a b.
 
 (* the hypotheses of the round-trip clause, on the components put in *)
-Definition all_scalar (s : text) : bool := forallb scalar s.
 Definition components_wf (scheme : text) (user pw : text) (path : list text)
   (q : list (text * option text)) (frag : text) : bool :=
   scheme_ok scheme &&
